@@ -618,6 +618,9 @@ func (mru *memRepoUpload) Digest() digest.Digest {
 func (mru *memRepoUpload) Verify(expect digest.Digest) error {
 	mru.mu.Lock()
 	defer mru.mu.Unlock()
+	if mru.expect != "" && mru.expect != expect {
+		return fmt.Errorf("digest mismatch, session was created for %s, received %s", mru.expect, expect)
+	}
 	if mru.d.Digest() == expect {
 		return nil
 	}
